@@ -75,8 +75,8 @@ CLAIMED = {
    note="Stubs: the final recalculation inside Correct (success), the clock. Outside: fidelity of schema.Object.Clone (JSON round trip by reflection), envelope-level header/signature immutability, CLI/bulk parsing, addon-specific definitions.",
    ref="DESIGN.md 5 (C16)"),
  "C18": dict(
-   text="Bounded model checking with z3 of the reference rules against the published definition files (data/addons, data/regimes, data/catalogues, data/currency, read at run time as the oracle): (1) for every registered extension key and EVERY ASCII candidate value of 1..3 bytes (symbolic), tax.Extensions.Validate accepts only a listed code or a value matching the declared pattern; an undefined key is rejected; (2) a tax combo's category and rate key are accepted only if the regime that applies (the combo's country, else the document's) defines them; (3) wiring: in a valid calculated ES or FR invoice, replacing the currency by ANY three capital letters (symbolic), the regime country by ANY two capital letters (symbolic), or the tag, addon key, category or rate key by any member of a pool of defined and undefined ones, validation by the real Invoice.ValidateWithContext chain succeeds only if the replacement is published.",
-   note="The validation library's reflective dispatcher is modelled in the engine; rule code and all Validate methods run for real; normalisation is skipped. Outside: other reference positions and document types, values longer than 3 bytes, keys with more than 40 (thorough 300) codes, completeness beyond the unchanged skeleton.",
+   text="Bounded model checking with z3 of the reference rules against the published definition files (data/addons, data/regimes, data/catalogues, data/currency, read at run time as the oracle): (1) for every registered extension key and EVERY ASCII candidate value of 1..3 bytes (symbolic), tax.Extensions.Validate accepts only a listed code or a value matching the declared pattern; an undefined key is rejected; (2) a tax combo's category and rate key are accepted only if the regime that applies (the combo's country, else the document's) defines them; (3) wiring: in a valid calculated ES or FR invoice, replacing the currency by ANY three capital letters (symbolic; on a regime-less invoice: accepted iff published), the regime country by ANY two capital letters (symbolic), or the tag, addon key, category or rate key by any member of a pool of defined and undefined ones, validation by the real Invoice.ValidateWithContext chain succeeds only if the replacement is published.",
+   note="The validation library's reflective dispatcher is modelled in the engine; rule code and all Validate methods run for real; normalisation is skipped. Outside: other reference positions and document types, values longer than 3 bytes, keys with more than 40 (thorough 300) codes, completeness beyond the unchanged skeleton. Defect found and fixed: 61a9149 (undefined currency accepted on regime-less invoices).",
    ref="DESIGN.md 5 (C18)"),
 }
 
